@@ -303,8 +303,16 @@ int handle_routing_response(const cJSON *json_rpc, const cJSON *response, const 
 					cJSON_Delete(response_copy);
 				}
 			} else {
+				/*
+				 * Not the fault of the answering peer p, so don't report an
+				 * error for it. Try to tell the requester instead.
+				 */
 				log_peer_err(p, "Could not copy response!\n");
-				ret = -1;
+				cJSON *error_response = create_error_response(request->requesting_peer, request->origin_request_id, INTERNAL_ERROR, "reason", "could not copy response");
+				if (likely(error_response != NULL)) {
+					format_and_send_response(request->requesting_peer, error_response);
+					cJSON_Delete(error_response);
+				}
 			}
 			cJSON_Delete(request->origin_request_id);
 		}
